@@ -31,6 +31,48 @@ def mkTx (seq coding orfStart orfEnd startNF endNF sec : String) : TxIn :=
 
 def pepsOut (ps : List Pep) : String := joinWith "," (sortDedupStr (ps.map String.ofList))
 
+/-! ### `hap` / `haptx`: the two enumerators of compatible combinations, side by side
+
+The compiled `haplotypes` IS `haplotypesFast` (`@[csimp] Spec.haplotypes_eq_fast`).  These ops
+evaluate the definition BY HAND — the body of `Spec.haplotypes` spelled out on the pool, so no
+`csimp` equation applies to it — next to the pruned enumerator called by name and next to the
+constant `haplotypes` as the compiler translates it here, and report any difference. -/
+
+/-- the body of `Spec.haplotypes` on an explicit pool (kernel-checked below: it is the definition) -/
+def hapBySublists (pool : List Var) : List (List Var) :=
+  ((sublists pool).map sortByStart).filter fun h => !h.isEmpty && separated h
+
+theorem hapBySublists_is_definition (t : TxIn) (vs : List Var) :
+    hapBySublists (recordPool t vs) = haplotypes t vs := rfl
+
+/-- the pruned enumerator on an explicit pool (`haplotypesFast` = this on `recordPool`) -/
+def hapPruned (pool : List Var) : List (List Var) :=
+  ((prunedSublists pool).filter fun s => !s.isEmpty).map sortByStart
+
+theorem hapPruned_is_fast (t : TxIn) (vs : List Var) :
+    hapPruned (recordPool t vs) = haplotypesFast t vs := rfl
+
+def renderVar (v : Var) : String := s!"{v.start}-{v.stop}-" ++ joinWith "+" (v.ids.map toString)
+def renderHap (h : List Var) : String := joinWith "," (h.map renderVar)
+def renderHaps (hs : List (List Var)) : String := s!"{hs.length}|" ++ joinWith ";" (hs.map renderHap)
+
+/-- `ok <n>|<combinations in order>` when the three statements proved in `Spec/CallVariant.lean` also
+hold for the compiled code on this pool, else which one fails -/
+def hapCompare (pool : List Var) (viaConst : Option (List (List Var))) : String :=
+  let slow := hapBySublists pool
+  let fast := hapPruned pool
+  let subs := sublists pool
+  if !(subs.all fun s => separated (sortByStart s) == pairwiseOk s) then
+    "DIFF(a) separated∘sort vs pairwiseOk"
+  else if subs.filter pairwiseOk != prunedSublists pool then
+    "DIFF(b) filter vs pruned: " ++ renderHaps (subs.filter pairwiseOk) ++ " / " ++
+      renderHaps (prunedSublists pool)
+  else if slow != fast then "DIFF(c) slow=" ++ renderHaps slow ++ " fast=" ++ renderHaps fast
+  else match viaConst with
+    | some c => if c != slow then "DIFF(csimp) const=" ++ renderHaps c ++ " slow=" ++ renderHaps slow
+                else "ok " ++ renderHaps fast
+    | none => "ok " ++ renderHaps fast
+
 /-- a stored case (`set` op) for the many `w` (witness) queries of one real run -/
 structure SCase where
   g : Cfg
@@ -120,6 +162,13 @@ def handle (st : Option SCase) (args : List String) : Option SCase × String :=
     | none => (st, "bad-rule")
     | some g =>
       (st, pepsOut (altTranslationPeptides g (mkTx seq "1" orfStart orfEnd startNF endNF sec)))
+  | ["hap", vars] =>
+    (st, hapCompare ((splitList vars ';').filterMap parseVar) none)
+  | ["haptx", seq, coding, orfStart, orfEnd, startNF, endNF, sec, vars] =>
+    let t := mkTx seq coding orfStart orfEnd startNF endNF sec
+    let vs := (splitList vars ';').filterMap parseVar
+    (st, "pool " ++ renderHap (recordPool t vs) ++ " " ++
+      hapCompare (recordPool t vs) (some (haplotypes t vs)))
   | ["translate", seq] => (st, String.ofList (translate seq.toList))
   | _ => (st, "bad-op")
 
